@@ -11,7 +11,8 @@ From Coq Require Import PrimFloat.
 From Coq Require Import Reals ZArith List Lia Lra Bool Sorted Permutation.
 From PR Require Import Base.Num Base.RNum Base.F64 Base.ZX Model.Grid Model.Bucket Gen.GenC07
      Proofs.Grid_real Proofs.C07_index Proofs.C07_hist Proofs.C07_minmax Proofs.C07_stats Proofs.C07_empty
-     Proofs.C07_gen Proofs.C07_history Proofs.C07_compose.
+     Proofs.C07_gen Proofs.C07_history Proofs.C07_compose Proofs.C07_imp.
+From PR Require Import Base.Imp Model.ImpBucket Gen.GenC07imp Model.C07_imp_run.
 From PR Require Model.CellIndex Proofs.C18_real.
 Import ListNotations.
 
@@ -311,6 +312,63 @@ Example C07_history_ex :
           CallMax [5%nat] [Some 1; Some 2; Some 3; Some 9; Some 5]; CallCount]
   = [ResF [Some 1%float; None; Some 3%float]; ResZ [2; 0; 2]; ResF [Some 0%float; None; Some 1%float];
      ResD [Some 6; Some 0; Some 2]; ResD [Some 5; None; Some 3]; ResZ [2; 0; 2]].
+Proof. vm_compute. reflexivity. Qed.
+
+(* ------------------------------------------------------------------ the stateful methods translated from /repo ARE the model
+   (coq/Gen/GenC07imp.v, regenerated on every run by tools/py2coq_imp.py; self = the record bk_obj; the dask/numpy array
+   expressions are the ib_* readings of Model/ImpBucket.v, named in the spec).  Each generated method returns (no raise, no fuel)
+   the model's statistic of the flattened data and leaves self in the model's next state. *)
+Theorem C07_get_count_code_is_model : forall o,
+  exists st, imp_get_count o = Ret [] st (snd (bk_count_step o)) /\ imp_get_count_self st = fst (bk_count_step o).
+Proof. exact get_count_code. Qed.
+Print Assumptions C07_get_count_code_is_model.
+Theorem C07_get_sum_code_is_model : forall o data fill skipna ebv,
+  exists st, imp_get_sum o data fill skipna ebv
+             = Ret [] st (bk_cells (o_size o) (bk_get_sum (o_size o) (concat (o_chunks o)) (concat data) fill skipna ebv))
+             /\ imp_get_sum_self st = bk_rechunk (ib_lens data) o.
+Proof. exact get_sum_code. Qed.
+Print Assumptions C07_get_sum_code_is_model.
+Theorem C07_get_min_max_code_is_model : forall o data fill skipna,
+  (exists st, imp_get_min o data fill skipna
+              = Ret [] st (bk_cells (o_size o) (bk_get_min (o_size o) (concat (o_chunks o)) (concat data)))
+              /\ imp_get_min_self st = bk_rechunk (ib_lens data) o) /\
+  (exists st, imp_get_max o data fill skipna
+              = Ret [] st (bk_cells (o_size o) (bk_get_max (o_size o) (concat (o_chunks o)) (concat data)))
+              /\ imp_get_max_self st = bk_rechunk (ib_lens data) o) /\
+  (exists st, imp_get_abs_max o data fill skipna
+              = Ret [] st (bk_cells (o_size o) (bk_get_abs_max (o_size o) (concat (o_chunks o)) (concat data)))
+              /\ imp_get_abs_max_self st = bk_rechunk (ib_lens data) o).
+Proof. intros. split; [apply get_min_code | split; [apply get_max_code | apply get_abs_max_code]]. Qed.
+Print Assumptions C07_get_min_max_code_is_model.
+Theorem C07_get_average_code_is_model : forall {T} (OP : ops T) o data fill skipna,
+  exists st, imp_get_average OP o data fill skipna
+             = Ret [] st (bk_cells (o_size o) (bk_get_average OP (o_size o) (concat (o_chunks o)) (concat data) fill skipna))
+             /\ imp_get_average_self st = bk_rechunk (ib_lens data) o.
+Proof. intros T OP. exact (get_average_code OP). Qed.
+Print Assumptions C07_get_average_code_is_model.
+(* get_fractions: the loop over the categories fills the result dict with the per-category fractions taken over the MEMOISED
+   counts (self.get_count()), and leaves the memo filled *)
+Theorem C07_get_fractions_code_is_model : forall {T} (OP : ops T) o data cats fill,
+  exists st, imp_get_fractions OP o data cats fill
+             = Ret [] st (frac_results OP (o_size o) (concat (o_chunks o)) (concat data) fill (snd (bk_count_step o)) cats [])
+             /\ o_size (imp_get_fractions_self st) = o_size o
+             /\ concat (o_chunks (imp_get_fractions_self st)) = concat (o_chunks o)
+             /\ o_counts (imp_get_fractions_self st) = Some (snd (bk_count_step o)).
+Proof. intros T OP. exact (get_fractions_code OP). Qed.
+Print Assumptions C07_get_fractions_code_is_model.
+(* for EVERY sequence of calls of the generated methods on one object, every call returns what the pure model functions give
+   for a fresh object holding the same indices (memo and re-chunking are invisible) *)
+Theorem C07_history_independent_code : forall {T} (OP : ops T) size (chunks0 : list (list Z)) (calls : list icall),
+  imp_run OP (mk_obj size chunks0 None) calls = Some (map (imp_fresh OP size (concat chunks0)) calls).
+Proof. intros T OP. exact (imp_history_independent OP). Qed.
+Print Assumptions C07_history_independent_code.
+Example C07_history_code_ex :
+  imp_run F64 (mk_obj 3 [[0; 2]; [2; -4; 0]] None)
+          [IAvg [[Some 1]; [Some 2; Some 4; Some 9; None]] None true; ICount;
+           IFrac [[Some 1; Some 2; Some 2; Some 9; Some 5]] [2; 9] None; IMax [[Some 1; Some 2]; [Some 3; Some 9; Some 5]]; ICount]
+  = Some [IFl [Some 1%float; None; Some 3%float]; IZ [2; 0; 2];
+          IFr [(2, [Some 0%float; None; Some 1%float]); (9, [Some 0%float; None; Some 0%float])];
+          ID [Some 5; None; Some 3]; IZ [2; 0; 2]].
 Proof. vm_compute. reflexivity. Qed.
 
 (* ------------------------------------------------------------------ composition with C18 *)
